@@ -89,8 +89,9 @@ D_LevelsContiguous_ ==
 D_SnapshotKept_ == (IsStep /\ stopped /\ snapSeen) => HasSnap(cur)
 
 (* C05: once failures stop the replica catches up: the second of two consecutive fault-free acknowledged-sync requests succeeds *)
+\* (while the application holds a write transaction open litestream's own writes are refused as busy: not judged)
 D_CatchesUp_ ==
-  (IsStep /\ cur.cfg.faults /\ l > t0 + 1 /\ cur.op = "SyncWait" /\ Log[l - 1].op = "SyncWait" /\ cur.faultsLeft = 0 /\ Log[l - 1].faultsLeft = 0
+  (IsStep /\ cur.cfg.faults /\ ~cur.inTx /\ ~cur.reader /\ l > t0 + 1 /\ cur.op = "SyncWait" /\ Log[l - 1].op = "SyncWait" /\ cur.faultsLeft = 0 /\ Log[l - 1].faultsLeft = 0
           /\ Log[l - 2].faultsLeft = 0 /\ cur.res \notin {"skip", "timeout"} /\ Log[l - 1].res \notin {"skip", "timeout"}) => cur.ack
 
 (* C14: with the daemon running (its syncs, checkpoints, snapshots, compactions, close) the application-visible content is  *)
